@@ -108,11 +108,11 @@ def pred_missing_lookup_column(doc, t, c, info, x, y):
 
 
 def pred_error_keys(doc, t, c, info, x, y):
-  """lookup_index_keeps_error_keys: a lookup whose target table has a key column holding error
-  cells (the live index keeps such records under the key they had before); also `$group` of a
+  """lookup_index_keeps_error_keys: a lookup whose target table has a key or sort column holding
+  error cells (the live index keeps such records under the key / in the order they had before); also `$group` of a
   summary table whose group-by source column holds errors or unhashable values."""
   for (tt, keys, names) in lookups_of(info['formula'], t):
-    for k in keys:
+    for k in keys + names:        # key columns, and sort / group columns (the sorted helper keeps its cached order)
       if any_err(doc.values(tt, k)):
         return True
   if t in doc.summary_of and (c == 'group' or '$group' in info['formula'] or 'rec.group' in info['formula']):
@@ -140,6 +140,78 @@ def error_keyed_summaries(doc):
   return out
 
 
+def pred_empty_table_key_type(doc, t, c, info, x, y):
+  """lookup_in_empty_table_ignores_key_type: the fresh engine reports TypeError for a lookup whose key
+  column has a list type (the key converted to that type is unhashable), while the live engine still
+  holds a value: the cell was not re-evaluated when the key column got that type, which happens when
+  the looked-up table had no rows at that moment (no dependency on the key column existed). Any
+  evaluation under the present type gives TypeError, so a live value can only be a leftover."""
+  if not is_err(y, 'TypeError') or is_err(x):
+    return False
+  for (tt, keys, names) in lookups_of(info['formula'], t):
+    for k in keys:
+      typ = doc.cols.get((tt, k), {}).get('type', '')
+      if typ.split(':')[0] in ('RefList', 'ChoiceList', 'Attachments'):
+        return True
+  return False
+
+
+HAS_LOOKUP = re.compile(r'\.(lookupRecords|lookupOne)\s*\(|\b(PREVIOUS|NEXT|RANK)\s*\(|\$group|rec\.group')
+ATTR = re.compile(r'\.([A-Za-z_][A-Za-z0-9_]*)')
+
+
+def index_columns(doc):
+  """{(table, col)}: columns that some lookup helper reads: keys of lookupRecords / lookupOne, sort and
+  group columns of order_by / sort_by / group_by (also of PREVIOUS / NEXT / RANK), group-by source
+  columns of summary tables."""
+  out = set()
+  for (t, c), info in doc.cols.items():
+    if info['formula']:
+      for (tt, keys, names) in lookups_of(info['formula'], t):
+        for n in keys + names:
+          out.add((tt, n))
+  for st, src in doc.summary_of.items():
+    for gc in doc.groupby.get(st, ()):
+      out.add((src, gc))
+  return out
+
+
+def depends_on_lookup(doc, t, c, depth=3):
+  """The formula of (t, c) contains a lookup, or reads (by attribute name, up to `depth` steps) a
+  formula column whose formula does."""
+  seen = set()
+  todo = [((t, c), 0)]
+  by_name = {}
+  for key in doc.cols:
+    by_name.setdefault(key[1], []).append(key)
+  while todo:
+    key, k = todo.pop()
+    if key in seen:
+      continue
+    seen.add(key)
+    info = doc.cols.get(key)
+    if not info or not info['isFormula']:
+      continue
+    if HAS_LOOKUP.search(info['formula']):
+      return True
+    if k < depth:
+      names = set(ATTR.findall(info['formula'])) | set(cyclemech.CELL_REF.findall(info['formula']))
+      for n in names:
+        for other in by_name.get(n, ()):
+          todo.append((other, k + 1))
+  return False
+
+
+def make_pred_done_before_invalidation(doc0):
+  idx = index_columns(doc0)
+  def pred(doc, t, c, info, x, y):
+    """reinvalidated_cell_not_recomputed: the column is read by a lookup helper (so its dirty cells
+    are evaluated first, with the lookup nodes) and its value depends on another lookup (whose
+    update, later in the same recalculation, invalidates the cell again -- without effect)."""
+    return (t, c) in idx and depends_on_lookup(doc, t, c)
+  return pred
+
+
 # ---------------------------------------------------------------------------------- the explainer
 def diffs(S, F):
   """(cells, rowdiff, structural): differing cells (t, c, row, x, y) of tables with equal row sets,
@@ -161,11 +233,13 @@ def diffs(S, F):
   return cells, rowdiff, False
 
 
-def explained(S, F, pred, extra_tables=()):
-  """True iff every difference between S and F is explained by core columns selected by `pred`."""
+def explain(S, F, pred, extra_tables=()):
+  """The part of the difference between S and F that core columns selected by `pred` explain:
+  (set of explained (table, col) cells' columns, set of explained tables), or None if there is no
+  core column (and no extra table)."""
   cells, rowdiff, structural = diffs(S, F)
   if structural or (not cells and not rowdiff):
-    return False
+    return None
   doc = Doc(S)
   by_col = {}
   for d in cells:
@@ -177,7 +251,7 @@ def explained(S, F, pred, extra_tables=()):
       core.add(key)
   affected = set(extra_tables)
   if not core and not affected:
-    return False
+    return None
   cols = cyclemech.columns(S)
   edges = cyclemech.graph(cols)
   sums = cyclemech.summary_sources(S)
@@ -194,43 +268,71 @@ def explained(S, F, pred, extra_tables=()):
     for st in new:
       seed.update(k for k in cols if k[0] == st)
     reach = cyclemech.downstream(seed, edges)
-  if not rowdiff <= affected:
-    return False
-  for d in cells:
-    if d[0] in affected:
-      continue
-    key = (d[0], d[1])
+  ecols = set()
+  for key in by_col:
     info = doc.cols.get(key)
-    if info is None or not info['isFormula'] or key not in reach:
-      return False
-  return True
+    if key[0] in affected or (info is not None and info['isFormula'] and key in reach):
+      ecols.add(key)
+  return ecols, (rowdiff & affected)
 
 
-def only_nameerror(S, F):
-  """unknown_name_not_reevaluated: every differing cell holds NameError on exactly one side (or lies
-  downstream of such a column)."""
-  return explained(S, F, lambda doc, t, c, info, x, y: is_err(x, 'NameError') != is_err(y, 'NameError'))
+def explained(S, F, pred, extra_tables=()):
+  """True iff every difference between S and F is explained by core columns selected by `pred`."""
+  e = explain(S, F, pred, extra_tables)
+  if e is None:
+    return False
+  cells, rowdiff, _ = diffs(S, F)
+  return rowdiff <= e[1] and all((d[0], d[1]) in e[0] for d in cells)
+
+
+def mechanisms(S):
+  """[(mechanism key, cell predicate, extra tables)] in the order in which they are tried."""
+  doc = Doc(S)
+  eks = error_keyed_summaries(doc)
+  out = []
+  if eks:
+    out.append(('summary_rows_with_error_keys', pred_error_keys, eks))
+  out.append(('lookup_index_keeps_error_keys', pred_error_keys, ()))
+  out.append(('unknown_name_not_reevaluated', lambda doc, t, c, info, x, y: is_err(x, 'NameError') != is_err(y, 'NameError'), ()))
+  out.append(('removed_lookup_column_keeps_helper', pred_removed_sort_column, ()))
+  out.append(('lookup_of_missing_column_not_reevaluated', pred_missing_lookup_column, ()))
+  out.append(('lookup_in_empty_table_ignores_key_type', pred_empty_table_key_type, ()))
+  out.append(('reinvalidated_cell_not_recomputed', make_pred_done_before_invalidation(doc), ()))
+  return out
+
+
+def classify_all(S, F):
+  """List of the mechanism keys of open findings that together explain *every* difference between S
+  and F (each differing column / table must be explained by at least one of them), or [] if some
+  difference remains unexplained."""
+  m = cyclemech.classify(S, F)
+  if m == 'cycle_detection_incremental_vs_scratch':
+    return [m]
+  cells, rowdiff, structural = diffs(S, F)
+  if structural or (not cells and not rowdiff):
+    return []
+  need_cols = set((d[0], d[1]) for d in cells)
+  need_tabs = set(rowdiff)
+  used = []
+  for key, pred, extra in mechanisms(S):
+    e = explain(S, F, pred, extra)
+    if e is None:
+      continue
+    ecols, etabs = e
+    if (need_cols & ecols) or (need_tabs & etabs):
+      if key == 'summary_rows_with_error_keys' and not (need_tabs & etabs):
+        key = 'lookup_index_keeps_error_keys'      # same root cause; the summary key is kept for row-set differences
+      if key not in used:
+        used.append(key)
+      need_cols -= ecols
+      need_tabs -= etabs
+    if not need_cols and not need_tabs:
+      return used
+  return []
 
 
 def classify(S, F):
-  """Mechanism key of the open finding that explains every difference between S and F, or None."""
-  m = cyclemech.classify(S, F)
-  if m == 'cycle_detection_incremental_vs_scratch':
-    return m
-  doc = Doc(S)
-  eks = error_keyed_summaries(doc)
-  if eks and explained(S, F, pred_error_keys, extra_tables=eks):
-    # the summary manifestation keeps its own (older) key: C01 lists its consequence under it
-    cells, rowdiff, _ = diffs(S, F)
-    if rowdiff:
-      return 'summary_rows_with_error_keys'
-    return 'lookup_index_keeps_error_keys'
-  if explained(S, F, pred_error_keys):
-    return 'lookup_index_keeps_error_keys'
-  if only_nameerror(S, F):
-    return 'unknown_name_not_reevaluated'
-  if explained(S, F, pred_removed_sort_column):
-    return 'removed_lookup_column_keeps_helper'
-  if explained(S, F, pred_missing_lookup_column):
-    return 'lookup_of_missing_column_not_reevaluated'
-  return None
+  """Mechanism key of the (first) open finding of those that together explain every difference
+  between S and F, or None."""
+  ms = classify_all(S, F)
+  return ms[0] if ms else None
